@@ -48,6 +48,12 @@ func NewWorker(concurrency int) api.WorkTriggerer {
 	return func(ctx context.Context, _ *ui.Output, workers *workers.PoolManager, _ options.RunOptions) {
 		pool := workers.NewContinuousPool(concurrency)
 		pool.Start(ctx)
-		<-workers.WaitForCompletion()
+
+		// Return when triggering has to stop, even if iterations are still running:
+		// waiting for them (for at most the completion timeout) is up to the caller.
+		select {
+		case <-workers.WaitForCompletion():
+		case <-ctx.Done():
+		}
 	}
 }
